@@ -49,7 +49,7 @@ def run_inprocess(argv, stdin_file=None):
     return status, out.getvalue(), err.getvalue()
 
 
-def run_subprocess(argv, stdin_bytes=None, timeout=120):
+def run_subprocess(argv, stdin_bytes=None, timeout=600):
     env = dict(os.environ)
     src = os.environ.get("VERIF_REPO_SRC", "/repo/src")
     env["PYTHONPATH"] = src
@@ -63,7 +63,7 @@ def strip(text):
     return ANSI.sub("", text)
 
 
-def run_subprocess_fifo(argv, fifo_path, data, timeout=120):
+def run_subprocess_fifo(argv, fifo_path, data, timeout=600):
     """the CLI reads one of its input files from a named pipe that a writer thread feeds"""
     import threading
     os.mkfifo(fifo_path)
@@ -102,7 +102,7 @@ def run_subprocess_fifo(argv, fifo_path, data, timeout=120):
     return p.returncode, out.decode("utf-8", "replace"), err.decode("utf-8", "replace")
 
 
-def run_subprocess_pty(argv, cols=100, rows=30, timeout=120):
+def run_subprocess_pty(argv, cols=100, rows=30, timeout=600):
     """the CLI with its stdout connected to a terminal of the given size (a user at a terminal, not a pipe)"""
     import fcntl
     import pty
